@@ -67,6 +67,9 @@ def params_from(index, mseed):
     om = rng.uniform(-720, 720, NPK)
     om[2] = 0.0
     om[3] = 180.0
+    if (index // 7 + mseed) % 4 == 0:
+        # peaks as they come off a scan: runs of exactly equal omega (5 peaks per frame), frames in acquisition order
+        om = np.repeat(np.sort(rng.uniform(-720, 720, 5)), 5)[:NPK] if NPK <= 25 else om
     if index % 16 == (mseed + 3) % 16:
         # integer typed columns (pixel indices, whole degrees), as read from an integer HDF column
         sc = np.rint(sc).astype(np.int64)
